@@ -2,6 +2,7 @@
 mod chain;
 mod engine;
 mod factory;
+mod ledgercheck;
 mod props;
 mod refmodel;
 mod report;
